@@ -10,7 +10,7 @@ package delegation
 //@
 //@ func (*Token).IsValidAt
 //@   requires t != nil
-//@   ensures [C04] spec: result == dlgValidAt(t, ti)
+//@   ensures [C04,C05] spec: result == dlgValidAt(t, ti)
 //@   ensures [C04] inside: (t.notBefore == nil || inst(*t.notBefore) < inst(ti)) && (t.expiration == nil || inst(ti) < inst(*t.expiration)) ==> result
 //@   ensures [C04] outside: (t.notBefore != nil && inst(ti) < inst(*t.notBefore)) || (t.expiration != nil && inst(ti) > inst(*t.expiration)) ==> !result
 //@   assigns [C20] nothing
